@@ -24,6 +24,11 @@ pub struct Case {
     pub op: Op,
     /// clauses [head, rest…]
     pub clauses: Vec<Vec<Goal>>,
+    /// finite-domain goals occur: a head's stream can be non-empty although labeling later finds
+    /// no solution, so "the head has an answer" is only a sufficient test for commitment
+    pub fd: bool,
+    /// scale family: larger budgets
+    pub big: bool,
 }
 
 fn whole(c: &Case) -> Program {
@@ -112,7 +117,7 @@ fn decode(s: &mut Source) -> Case {
         }
         clauses.push(clause);
     }
-    Case { prefix, op, clauses }
+    Case { prefix, op, clauses, fd: false, big: false }
 }
 
 pub fn eval(c: &Case, ctx: &Ctx) -> CaseInfo {
@@ -120,7 +125,8 @@ pub fn eval(c: &Case, ctx: &Ctx) -> CaseInfo {
     let p = whole(c);
     let desc = p.show();
     info.key = hash_str(&desc);
-    let lim = Limits { max_answers: 300, budget: 300_000 };
+    let lim = if c.big { Limits { max_answers: 20_000, budget: 40_000_000 } } else { Limits { max_answers: 300, budget: 300_000 } };
+    let head_budget = if c.big { 20_000_000 } else { 100_000 };
     // k: first clause whose head has an answer after the prefix (by the implementation)
     let mut k = None;
     let mut first_answer = None;
@@ -129,7 +135,7 @@ pub fn eval(c: &Case, ctx: &Ctx) -> CaseInfo {
         let mut body = c.prefix.clone();
         body.push(cl[0].clone());
         let hp = Program { nq: NQ, body };
-        let out = run::run(&hp, Mode::Bfs, Limits::first(1, 100_000));
+        let out = run::run(&hp, Mode::Bfs, Limits::first(1, head_budget));
         match &out.end {
             End::Panic(pi) => {
                 info.fail(format!("C08:panic:{}", pi.key()), format!("{}\n  panicked: {} at {}", hp.show(), pi.message, pi.location));
@@ -206,6 +212,12 @@ pub fn eval(c: &Case, ctx: &Ctx) -> CaseInfo {
     if k.is_none() {
         info.class("no-clause-applies");
     }
+    if c.fd && out.answers.is_empty() && k != Some(0) {
+        // committing to an earlier clause whose head's stream is non-empty but has no labeled
+        // solution legitimately yields nothing
+        info.class("fd:no-answers-and-an-earlier-head-without-solutions");
+        return info;
+    }
     match canon::multiset_cmp(&out.answers, &expected, &u) {
         Ok(None) => {}
         Err(()) => return CaseInfo { skip: Some("too-big"), ..info },
@@ -246,6 +258,108 @@ fn run_family(bytes: &[u8], ctx: &Ctx) -> CaseInfo {
     let mut s = Source::new(bytes);
     let c = decode(&mut s);
     eval(&c, ctx)
+}
+
+/// Finite-domain goals in prefix, heads and rests of a conda: a posting sequence of family F is
+/// cut into prefix | head | rest, with a fallback clause.
+fn run_fd(bytes: &[u8], ctx: &Ctx) -> CaseInfo {
+    use crate::gen::fd::{gen_case, FdCfg};
+    let mut s = Source::new(bytes);
+    let cfg = FdCfg { max_vars: NQ, max_constraints: 4, shapes: false, hidden: false, ..FdCfg::full() };
+    let fc = gen_case(&mut s, &cfg);
+    let goals = fc.goals.clone();
+    let n = goals.len();
+    let i = s.below(n + 1);
+    let j = i + s.below(n - i + 1);
+    let head = |gs: &[Goal]| -> Goal {
+        match gs.len() {
+            0 => Goal::Succeed,
+            1 => gs[0].clone(),
+            _ => Goal::Conj(gs.to_vec()),
+        }
+    };
+    let mut first = vec![head(&goals[i..j])];
+    first.extend(goals[j..].iter().cloned());
+    let mut clauses = vec![first];
+    let nother = s.below(3);
+    for _ in 0..nother {
+        let v = Term::Var(s.below(NQ) as VarId);
+        let k = s.range(-2, 4);
+        let h = match s.weighted(&[3, 2, 2]) {
+            0 => Goal::Eq(v.clone(), Term::Int(k)),
+            1 => Goal::Fd(crate::ast::FdGoal::Lte(v.clone(), Term::Int(k))),
+            _ => Goal::Fd(crate::ast::FdGoal::InFdRange(v.clone(), k, k + 2)),
+        };
+        let cl = vec![h, Goal::Eq(Term::Var(s.below(NQ) as VarId), Term::Int(s.range(0, 3)))];
+        if s.flag(100) {
+            clauses.insert(0, cl);
+        } else {
+            clauses.push(cl);
+        }
+    }
+    // every variable gets a wide base domain first, so that each partial program the oracle runs
+    // (prefix + one head) is well-formed: the library requires a domain for every variable of a
+    // finite-domain constraint by the time an answer is reified
+    let mut prefix = vec![Goal::Fd(crate::ast::FdGoal::InFdRange(Term::list((0..NQ).map(|v| Term::Var(v as VarId)).collect()), cfg.lo - 2, cfg.hi + 2))];
+    prefix.extend(goals[..i].iter().cloned());
+    let c = Case { prefix, op: Op::Conda, clauses, fd: true, big: false };
+    let mut info = eval(&c, ctx);
+    info.class("fd-goals");
+    if j > i {
+        info.class("fd:head-posts-constraints");
+    }
+    info
+}
+
+/// Scale family: the committed head (or an earlier, failing head) is a goal with one large
+/// dimension, so that the first head answer arrives after many engine steps / deep recursion.
+fn run_scale(bytes: &[u8], ctx: &Ctx) -> CaseInfo {
+    let mut s = Source::new(bytes);
+    let thorough = ctx.tier == Tier::Thorough;
+    let mut next_var: VarId = 100;
+    let big = crate::gen::scale::big_goal(&mut s, thorough, &mut next_var);
+    let op = match s.weighted(&[3, 3, 2]) {
+        0 => Op::Conda,
+        1 => Op::Condu,
+        _ => Op::Onceo,
+    };
+    let (q, r, z) = (Term::Var(0), Term::Var(1), Term::Var(2));
+    let mut prefix = vec![];
+    if s.flag(120) {
+        // decide q beforehand: the head becomes a (late succeeding or failing) test
+        let v = match s.weighted(&[3, 2, 2]) {
+            0 => Term::Int(s.below(3) as i64),
+            1 => Term::Int(9),
+            _ => Term::Int(77),
+        };
+        prefix.push(Goal::Eq(q.clone(), v));
+    }
+    let rest: Vec<Goal> = match s.weighted(&[2, 2, 2]) {
+        0 => vec![],
+        1 => vec![Goal::Eq(z.clone(), Term::Int(1))],
+        _ => vec![crate::gen::scale::small_cond(&mut s, &z)],
+    };
+    let mut first = vec![big];
+    if op != Op::Onceo {
+        // onceo { g } has no rest: everything inside the operator is the committed goal
+        first.extend(rest);
+    }
+    let fallback = vec![Goal::Eq(z.clone(), Term::Int(5)), Goal::Eq(r.clone(), Term::Int(6))];
+    let clauses = if op == Op::Onceo {
+        vec![first]
+    } else if s.flag(60) {
+        vec![fallback, first]
+    } else {
+        vec![first, fallback]
+    };
+    let c = Case { prefix, op, clauses, fd: false, big: true };
+    if std::env::var("PVH_SHOW").is_ok() {
+        eprintln!("SHOW {}", whole(&c).show());
+    }
+    let mut info = eval(&c, ctx);
+    truncate_sample(&mut info, 600);
+    info.class("scale");
+    info
 }
 
 // ---- matcha / matchu built dynamically, against the reference expansion -------------------
@@ -344,6 +458,8 @@ fn fixed_conda_vs_condu(ctx: &Ctx) -> CaseInfo {
         prefix: vec![],
         op: Op::Condu,
         clauses: vec![vec![Goal::Call(Rel::Member, vec![Term::Var(0), Term::ints(&[1, 2, 3])]), Goal::Eq(Term::Var(1), Term::Var(0))], vec![Goal::Eq(Term::Var(0), Term::Int(9))]],
+        fd: false,
+        big: false,
     };
     let mut i = eval(&c, ctx);
     let c2 = Case { op: Op::Conda, ..c };
@@ -365,11 +481,13 @@ pub fn run_match_pub(bytes: &[u8], ctx: &Ctx) -> CaseInfo {
 pub fn def() -> PropertyDef {
     PropertyDef {
         id: "C08",
-        rule: "a deterministic prefix (equalities) then conda / condu with 1-3 clauses [head, rest…] or onceo{g}; heads are family S goals over the 3 query variables (0, 1 or many answers, lazily produced through closures and recursive relations) or, for condu/onceo, infinite producers. Oracle (metamorphic): k = first clause whose head run alone after the prefix has an answer; conda: answers = answers of `prefix, head_k, rest_k`; condu/onceo: answers = answers of `prefix, <first head answer re-imposed as goals>, rest_k`; no clause => no answers; onceo <= 1 answer; conda additionally equals the reference interpreter's soft-cut. A second family builds matcha/matchu and compares with the reference expansion. Non-trivial = the committed head has >=2 answers, or its first answer needs lazy steps, or k>1 (match family: >=2 arms); distinct = hash of the printed program",
+        rule: "a deterministic prefix (equalities) then conda / condu with 1-3 clauses [head, rest…] or onceo{g}; heads are family S goals over the 3 query variables (0, 1 or many answers, lazily produced through closures and recursive relations) or, for condu/onceo, infinite producers. Oracle (metamorphic): k = first clause whose head run alone after the prefix has an answer; conda: answers = answers of `prefix, head_k, rest_k`; condu/onceo: answers = answers of `prefix, <first head answer re-imposed as goals>, rest_k`; no clause => no answers; onceo <= 1 answer; conda additionally equals the reference interpreter's soft-cut. A second family builds matcha/matchu and compares with the reference expansion. Non-trivial = the committed head has >=2 answers, or its first answer needs lazy steps, or k>1 (match family: >=2 arms); distinct = hash of the printed program. Family `fd-heads`: a family F posting sequence (domains, constraints, equalities over 3 variables with a wide base domain first) cut into prefix | conda head | rest plus fallback clauses; an empty result is also accepted when an earlier head has no labeled solution (its stream may still be non-empty). Family `scale`: the committed or an earlier failing head is a goal with one large dimension (first answer after up to millions of engine steps)",
         assumptions: vec!["'first answer in engine order' is by definition what the engine yields for the head alone", "reference interpreter correct (conda half, match family)"],
         families: vec![
             Family { name: "conda-condu-onceo", max_len: 200, quick: 80_000, thorough: 2_000_000, run: run_family },
             Family { name: "matcha-matchu", max_len: 96, quick: 60_000, thorough: 1_500_000, run: run_match },
+            Family { name: "fd-heads", max_len: 120, quick: 60_000, thorough: 1_500_000, run: run_fd },
+            Family { name: "scale", max_len: 48, quick: 8_000, thorough: 150_000, run: run_scale },
         ],
         fixed: vec![Fixed { name: "condu-vs-conda-head-with-three-answers", run: fixed_conda_vs_condu }],
         witnesses: vec![],
